@@ -112,7 +112,9 @@ class MatlabDefCompiler:
         )
 
     def generate_constant_string(self, c: ConstantString):
-        return self.generate_field("defines", self.sanitize_name(c.name), c.value)
+        # c.value is the text wrapped in double quotes: a quote inside a matlab string is doubled
+        text = c.value[1:-1].replace('"', '""')
+        return self.generate_field("defines", self.sanitize_name(c.name), f'"{text}"')
 
     def generate_host_id(self, hid: HID) -> str:
         return self.generate_field("HID", self.sanitize_name(hid.name), hid.value)
